@@ -40,12 +40,16 @@ NU = "MiniMcmcVerif.NUTS."
 PROPS = {
     "C06": {
         "obligations": ["MiniMcmcVerif.C06.kernels_leave_target_invariant", "MiniMcmcVerif.MH.mh_stationary", "MiniMcmcVerif.MH.mh_detailed_balance", "MiniMcmcVerif.MH.accept_probability",
-                        "MiniMcmcVerif.Gibbs.gibbs_sweep_invariant", "MiniMcmcVerif.HMC.verlet_reversible", "MiniMcmcVerif.HMC.hmc_step_result", "MiniMcmcVerif.NUTS.selection_uniform",
+                        "MiniMcmcVerif.Gibbs.gibbs_sweep_invariant", "MiniMcmcVerif.HMC.verlet_reversible", "MiniMcmcVerif.HMC.hmc_step_result",
+                        "MiniMcmcVerif.HMC.flow_balance", "MiniMcmcVerif.HMC.involutive_mh_invariant", "MiniMcmcVerif.HMC.invKernel_row_sum", "MiniMcmcVerif.HMC.involutive_of_reversible",
+                        "MiniMcmcVerif.HMC.hmc_kernel_invariant", "MiniMcmcVerif.HMC.hmc_position_marginal_invariant", "MiniMcmcVerif.HMC.hmc_verlet_invariant",
+                        "MiniMcmcVerif.Gibbs.stale_not_invariant", "MiniMcmcVerif.NUTS.selection_uniform",
                         "MiniMcmcVerif.NUTS.buildTree_prime_admissible", "MiniMcmcVerif.Run.runChain_spec", "MiniMcmcVerif.Seeds.mh_chain_streams_distinct"],
         "timeout": 3000,
         "technique": "Lean 4 theorems for the logical content (kernels leave the target invariant given draws with the required laws) + calibrated deterministic-per-seed tests of the draws' laws and of stationarity",
         "level_text": "PARTIAL. Proved (Lean): the MH kernel satisfies detailed balance and leaves the target stationary and its rule accepts with probability min(1, e^r) under a uniform draw; a Gibbs sweep of full-conditional updates leaves any finite joint "
-                      "invariant; the HMC proposal is L steps of a time-reversible integrator plus a Metropolis test on H; the NUTS candidate is uniform among the admissible points of a subtree; run returns the iterates after burn-in; chains use "
+                      "invariant (and the stale-snapshot variant provably does not); the HMC proposal is L steps of a time-reversible integrator plus a Metropolis test on H, and a Metropolis step with a deterministic involutive proposal "
+                      "(flip o verlet^L is one) leaves every momentum-even non-negative weight invariant on every finite phase space, jointly and for the position marginal; the NUTS candidate is uniform among the admissible points of a subtree; run returns the iterates after burn-in; chains use "
                       "distinct streams. NOT proved, only validated: that the draws the real steps consume have the laws these theorems assume, and that long-run pooled estimates stay within Monte-Carlo error. Validation (deterministic for a given "
                       "seed): (a) hook-recorded draws — MH acceptance draws, proposal noise, HMC momenta and uniforms, NUTS momenta, Exp(1) slice draws, direction / adoption / selection uniforms, f32 and f64 — tested against N(0,1) / U[0,1) / Exp(1) "
                       "by mean, variance, Kolmogorov-Smirnov and lag-1 autocorrelation at 6-sigma / p~1e-9 thresholds; (b) 64 chains per sampler started in a random Gaussian target (so every correct kernel keeps them stationary): z-scores of E[x_i], "
@@ -79,7 +83,7 @@ PROPS = {
     },
     "C03": {
         "module": "MiniMcmcVerif.Props.C03Uniform",
-        "obligations": [NU + n for n in ["skeleton_indep_sel", "selection_uniform", "buildTree_succ", "bt_stop", "bt_go", "buildTree_counts", "buildTree_prime_mem", "buildTree_sel_suffix", "buildTree_prime_admissible",
+        "obligations": [NU + n for n in ["doubling_inv", "transition_next_state", "transition_ends", "skeleton_indep_sel", "selection_uniform", "buildTree_succ", "bt_stop", "bt_go", "buildTree_counts", "buildTree_prime_mem", "buildTree_sel_suffix", "buildTree_prime_admissible",
                                          "buildTree_s_no_divergence", "buildTree_size", "buildTree_leaves_chain", "buildTree_alpha_range", "doubling_pos",
                                          "adopted_has_admissible", "loop_invariant"]],
         "rel32": 3e-3, "abs32": 1e-3, "rel64": 2e-5, "abs64": 2e-6,
@@ -87,7 +91,8 @@ PROPS = {
         "level_text": "Theorems (induction on the tree depth; every target, start point, step size, direction, slice level, stream of selection uniforms in [0,1); any ordered field with any exp): the points a subtree visits are the "
                       "leapfrog trajectory from its start in its direction (k-th point = k+1 steps; outer/inner ends = last/first), 2^j of them when complete; n_alpha is their number, n' the number of slice-admissible ones, alpha the sum of "
                       "min(1, exp(joint - joint0)); the candidate is one of them and is slice-admissible whenever n' > 0; s' = true implies no point diverged (joint > logu - 1000); alpha/n_alpha lies in [0,1]; after a doubling the position is the "
-                      "old one or the candidate of a subtree with s' = true, adopted only if u < min(1, n'/n) (which forces n' > 0); loop invariant for the whole transition. Tied to nuts.rs by replaying every traced transition "
+                      "old one or the candidate of a subtree with s' = true, adopted only if u < min(1, n'/n) (which forces n' > 0); loop invariant for the whole transition, assembled into transition_next_state: whenever a transition terminates, its final position is the "
+                      "start position or the position of a phase point z with logu < joint(z) that is k >= 1 leapfrog steps of size +eps or -eps from the start point (both trajectory ends are leapfrog iterates of it). Tied to nuts.rs by replaying every traced transition "
                       "(momentum, Exp(1) draw, every direction / selection / accept uniform from the hook) and direct build_tree calls at Float with closed-form gradients.",
         "level_note": "Uniform selection: the structure of a subtree is independent of the selection uniforms (skeleton_indep_sel) and, with the event u < r having probability r under a uniform draw, every admissible visited point of a "
                       "subtree with n' > 0 is its candidate with probability exactly 1/n', every inadmissible one with probability 0 (selection_uniform). Termination of the doubling loop is not a theorem (fuel). Comparisons that change under a rounding-sized perturbation of the inputs are classified indeterminate.",
@@ -98,7 +103,8 @@ PROPS = {
         "assumptions": ["uniform variates lie in [0,1)"],
     },
     "C04": {
-        "obligations": [DA + n for n in ["adaptStep_counters", "clampOrd_mem", "clampOrd_of_mem", "eps_in_range_step", "eps_in_range", "real_clamp_law", "eps_pos", "eps_frozen_step", "eps_frozen", "second_run_no_adapt", "hbar_step",
+        "module": "MiniMcmcVerif.Props.C04Eps",
+        "obligations": [NU + n for n in ["halve_spec", "cross_spec", "findReasonableEps_form", "findReasonableEps_pos", "findReasonableEps_no_iter"]] + [DA + n for n in ["adaptStep_counters", "clampOrd_mem", "clampOrd_of_mem", "eps_in_range_step", "eps_in_range", "real_clamp_law", "eps_pos", "eps_frozen_step", "eps_frozen", "second_run_no_adapt", "hbar_step",
                                          "hbar_closed_form", "hbar_bounded", "log_eps_dual_avg", "initChain_spec"]],
         "rel32": 2e-3, "abs32": 1e-4, "rel64": 1e-6, "abs64": 1e-9,
         "timeout": 3000,
@@ -107,9 +113,10 @@ PROPS = {
                       "once the transition number exceeds n_discard the step size equals the averaged iterate and neither it nor H_bar changes for the rest of the run; a later run whose warm-up length does not exceed the persistent "
                       "counter never adapts; during warm-up (m+t0)*H_bar grows by exactly delta - a per transition (closed form of Nesterov's averaged deficit) and stays within [delta-1, delta] for statistics in [0,1]; in warm-up, while "
                       "the exponentials stay inside [lo,hi], ln eps = mu - sqrt(m)/gamma * H_bar and ln eps_bar is the m^-kappa-weighted average; init_chain keeps m, H_bar, "
-                      "eps_bar and sets mu = ln(10 eps). Tied to nuts.rs by stepping real chains through 1-3 consecutive runs, reading (m, eps, eps_bar, H_bar, mu) after every transition (hook accessor) and the transition's "
+                      "eps_bar and sets mu = ln(10 eps). The first-use step size: whenever find_reasonable_epsilon returns (fuel model of its two while loops), over every ordered field, for every target, ln and "
+                      "finiteness test, its result is (1/2)^(h+1) * 2^c or (1/2)^(h+1+c) with h / c the iteration counts of the halving / crossing loop, hence strictly positive. Tied to nuts.rs by stepping real chains through 1-3 consecutive runs, reading (m, eps, eps_bar, H_bar, mu) after every transition (hook accessor) and the transition's "
                       "alpha/n_alpha (hook trace), and replaying the model at Float; find_reasonable_epsilon is replayed as well; freezing / positivity are also checked on the implementation bit for bit.",
-        "level_note": "Partial: the first-use step size from find_reasonable_epsilon is not clamped by the code and is only observed positive and finite on traces; 'realised acceptance close to the requested one' is statistical — not decided. "
+        "level_note": "Partial: the first-use step size from find_reasonable_epsilon is not clamped by the code; it is proved to be a positive power of two whenever the heuristic returns (finiteness then needs fewer than ~1000 iterations, observed on traces); 'realised acceptance close to the requested one' is statistical — not decided. "
                       "Finding F9 (fixed by aad1add): H_bar used to be updated after warm-up too, so a later run that resumed adaptation collapsed eps (exactly 0 in f32). The library has no tree-depth cap, so a tiny but positive "
                       "step size still makes a transition astronomically long; such histories are cut by the harness (counted).",
         "rule": "chains on 2-D Gaussians, random SPD Gaussians (dim 1-6), Student-t, Rosenbrock; delta uniform in (0.5,0.99); histories of 1-3 runs with warm-up 0, 1-5 or 5-60 (thorough 5-400) and 2-25 collected; f32 and f64; "
@@ -169,15 +176,16 @@ PROPS = {
     "C07": {
         "obligations": [SC + n for n in ["stepAt_comm", "exec_perm", "exec_length", "exec_chain", "run_deterministic"]]
                        + [SD + n for n in ["xs_injective", "mul_M1_injective", "mul_M2_injective", "mix_injective", "seedFromU64_injective",
-                                           "ofNat_add_injective", "chain_seed_injective"]]
+                                           "ofNat_add_injective", "chain_seed_injective", "unif53_lt", "unif24_lt", "unif53_unit", "unif24_unit", "unif53_surj"]]
                        + ["MiniMcmcVerif.Init.init_det_eq_42", "MiniMcmcVerif.Init.init_with_seed_prefix"],
         "disagreement_is_failing_input": False,
         "correspondence_name": "seeding correspondence: per-chain generator words of the real samplers vs. the Lean model of seed_from_u64 / xoshiro256++ / the seed derivations",
         "timeout": 3000,
         "level_text": "Theorems: in the schedule model (every chain owns its generator; a step reads and writes its own chain only) any two schedules that are permutations of each other give identical "
                       "chain states — chain i ends at step^[count i] of its start state, for any number of chains and interleaving; splitmix64's output function and hence seed_from_u64 are injective on u64 "
-                      "(no bv_decide), and wrapping seed+i(+1) is injective in the chain index, so different seeds / chains get different generator states, incl. u64::MAX. Tied to the code by (a) exact "
-                      "comparison of every chain's generator output with the model of rand's seeding for all four samplers, (b) running every sampler twice, under rayon pools of 1/2/5/16 threads, next to "
+                      "(no bv_decide), and wrapping seed+i(+1) is injective in the chain index, so different seeds / chains get different generator states, incl. u64::MAX; the f64 / f32 uniform variate "
+                      "derived from any generator word (top 53 / 24 bits) lies in [0, 1-2^-53] / [0, 1-2^-24] and every 53-bit numerator is reachable by a crafted word. Tied to the code by (a) exact "
+                      "comparison of every chain's generator output, and of the random::<f64>() / random::<f32>() variates drawn from it, with the model of rand's seeding for all four samplers, (b) running every sampler twice, under rayon pools of 1/2/5/16 threads, next to "
                       "concurrently running samplers, and through run_progress, comparing outputs bit for bit.",
         "level_note": "The theorem covers all interleavings of the model; its premise (no mutable state shared between chains/samplers) is what the runtime runs probe — the real rayon/OS schedules explored are the "
                       "handful these runs produce. A mismatch of the seeding model alone is reported as no-failing-input-found (the property does not fix the derivation).",
@@ -219,15 +227,16 @@ PROPS = {
         "assumptions": [],
     },
     "C12": {
-        "module": "MiniMcmcVerif.Props.C12Invariance",
-        "obligations": [ST + n for n in ["centre_affine", "autocovBF_affine", "essWith_affine", "splitRhatSqEss_affine", "rhoOf_perm", "essWith_chain_perm", "lagsum_reverse", "autocovBF_reverse", "essWith_time_reversal", "npadGo_spec", "npad_spec", "sum_range_zero_tail", "zipWith_drop_eq", "circ_eq_linear", "autocovCirc_eq_autocovBF", "autocov_eq_autocovBF",
+        "module": "MiniMcmcVerif.Props.C12DFT",
+        "obligations": [ST + n for n in ["char_orth", "conj_zeta", "idft_dft_mul_conj", "autocov_fft_eq_autocovCirc", "centre_affine", "autocovBF_affine", "essWith_affine", "splitRhatSqEss_affine", "rhoOf_perm", "essWith_chain_perm", "lagsum_reverse", "autocovBF_reverse", "essWith_time_reversal", "npadGo_spec", "npad_spec", "sum_range_zero_tail", "zipWith_drop_eq", "circ_eq_linear", "autocovCirc_eq_autocovBF", "autocov_eq_autocovBF",
                                          "geyerSeq_eq", "geyer_eq_sum", "geyerSeq_pos_antitone", "tau_eq", "ess_path_independent"]],
         "rel32": 6e-3, "abs32": 4e-4,
         "level_text": "Theorems: the FFT padding length is a power of two >= 2n-1; for such a length the circular correlation of the zero-padded centred sequence equals the linear one at every lag < n, so "
-                      "autocov_fft (given the DFT correlation identity) and autocov_bf are the same function and the 100-row switch cannot change ESS; the accumulated sequence is the running minimum of the "
+                      "autocov_fft and autocov_bf are the same function — the DFT correlation identity is proved too (over C with the primitive root exp(2 pi i/N): idft(X conj X)[t] = N * sum_a x_a x_((a+t) mod N) for real data, by orthogonality of "
+                      "the characters; hence the coded pipeline centre / zero-pad / fft / multiply by the conjugate / ifft / real part / divide by n_padded and n equals the circular-correlation model lag by lag) — and the 100-row switch cannot change ESS; the accumulated sequence is the running minimum of the "
                       "maximal positive prefix of the pair sums (Geyer), positive and non-increasing; tau = -1 + 2 * its sum and ESS = M*N/tau. Tied to stats.rs by comparing both private autocovariance paths "
                       "(hooks) and split_rhat_mean_ess across the switch, on original, time-reversed and chain-permuted data, with the model at Float; cases where the f32 mirror truncates elsewhere are indeterminate.",
-        "level_note": "Trusted: rustfft computes the DFT (correlation identity assumed, zero-padding argument proved). Affine invariance of (R-hat^2, ESS) through the split is a theorem (splitRhatSqEss_affine); tau and ESS are invariant under permutation of the half-chains (essWith_chain_perm) and under time reversal of every half-chain (autocovBF_reverse, essWith_time_reversal), given the same W and var+; "
+        "level_note": "Trusted: rustfft's process() computes the un-normalised DFT sums (the correlation identity and the zero-padding argument are both proved). Affine invariance of (R-hat^2, ESS) through the split is a theorem (splitRhatSqEss_affine); tau and ESS are invariant under permutation of the half-chains (essWith_chain_perm) and under time reversal of every half-chain (autocovBF_reverse, essWith_time_reversal), given the same W and var+; "
                       "both are also exercised through model cases on transformed data; 'about N for iid, N(1-phi)/(1+phi) for AR(1)' is statistical: the measured ratio is reported in the evidence notes, not decided.",
         "rule": "columns of length 2-5000 (powers of two +-1 favoured) for the two autocovariance paths; arrays with 1-16 chains x 4-5000 draws x 1-3 parameters for ESS incl. half-lengths 99-102 around the "
                 "switch; a third time-reversed, a third chain-permuted; AR(1) coefficients in (-0.9, 0.99); distinct by (chains, draws, kind, first value)",
@@ -305,8 +314,8 @@ PROPS = {
         "assumptions": ["weights are non-negative with at least one positive (the property's domain)"],
     },
     "C05": {
-        "module": "MiniMcmcVerif.Props.C05Invariance",
-        "obligations": [G + n for n in ["margin_update", "agree_iff", "gibbs_coord_invariant", "invariant_comp", "gibbs_sweep_invariant", "sweep_inv", "gibbs_call_indices", "gibbs_call_log", "gibbs_result_length",
+        "module": "MiniMcmcVerif.Props.C05Stale",
+        "obligations": [G + n for n in ["stale_not_invariant", "margin_update", "agree_iff", "gibbs_coord_invariant", "invariant_comp", "gibbs_sweep_invariant", "sweep_inv", "gibbs_call_indices", "gibbs_call_log", "gibbs_result_length",
                                         "substep_changes_only_i", "substep_writes_answer", "gibbs_result"]],
         "level_text": "Theorems (induction over the sweep index; any stateful conditional, state type, dimension): the call log of one Gibbs step has "
                       "length d, its j-th entry is (j, new[0..j] ++ old[j..]) — every coordinate once, in order, each call seeing all earlier results — "
